@@ -14,6 +14,7 @@ from __future__ import annotations
 import ast
 
 from ..core import astutil as A
+from ..core.errors import AnalysisError
 
 # (module relpath suffix, function short name, name) -> reason
 EXCEPTIONS = {
@@ -87,3 +88,127 @@ def run_U(chk, prefixes, rule1="U1", rule2="U2", floor1=40, floor2=10):
                         continue
                     chk.bad(rule2, (f, tg), f"{f.short}: {nm} of `{A.short(tg, 40)}`",
                             f"{f.short}(): `{nm}`, unpacked in `{A.short(tg, 50)}`, is never read: that component of the caller's data is ignored")
+
+
+# ------------------------------------------------------------------ U3 local memo keys
+_U3_FIXTURE = '''
+def f(pairs, sym):
+    memo = {}
+    out = []
+    for i, j in pairs:
+        key = (hfs[i], hfs[j])
+        if key not in memo:
+            memo[key] = compute(sym, (t[i], t[j]), key)
+        out.append(memo[key])
+    return out
+'''
+
+
+def _memo_findings(fn):
+    """Local memo idiom inside a loop:  if K not in M: ... M[K] = E   (M a dict created in this function).  The stored value may depend on
+    loop-variant data only through the key: every loop-variant name E depends on (transitively through assignments inside the guarded
+    block) must also be a name the key depends on.  Returns [(if node, key text, missing names, total loop-variant deps)]."""
+    out = []
+    b = A.local_bindings(fn)
+    par = A.enclosing_map(fn)
+    dicts = {nm for nm, ds in b.items() if any(k == "assign" and isinstance(v, ast.Dict) and not v.keys for st, v, k in ds)}
+    for x in A.walk_local(fn, include_self=False):
+        if not (isinstance(x, ast.If) and isinstance(x.test, ast.Compare) and len(x.test.ops) == 1 and isinstance(x.test.ops[0], ast.NotIn)
+                and isinstance(x.test.comparators[0], ast.Name) and x.test.comparators[0].id in dicts):
+            continue
+        M, K = x.test.comparators[0].id, x.test.left
+        stores = [s_ for s_ in ast.walk(x) if isinstance(s_, ast.Assign) and isinstance(s_.targets[0], ast.Subscript)
+                  and A.text(s_.targets[0].value) == M and A.text(s_.targets[0].slice) == A.text(K)]
+        loop = x
+        while loop in par and not isinstance(loop, (ast.For, ast.While)):
+            loop = par[loop]
+        if not stores or not isinstance(loop, (ast.For, ast.While)):
+            continue
+        variant = set()
+        for n in ast.walk(loop):
+            if isinstance(n, ast.Name) and isinstance(n.ctx, ast.Store):
+                variant.add(n.id)
+        variant.discard(M)
+
+        def deps(e, seen):
+            res = set()
+            for n in ast.walk(e):
+                if isinstance(n, ast.Name) and isinstance(n.ctx, ast.Load) and n.id in variant and n.id not in seen:
+                    seen.add(n.id)
+                    res.add(n.id)
+                    # through definitions inside the loop
+                    for st, v, k in b.get(n.id, []):
+                        if v is not None and st in list(ast.walk(loop)) and k == "assign":
+                            res |= deps(v, seen)
+            return res
+        kd = deps(K, set())
+        # loop targets reached through the key's definition count as covered
+        ed = set()
+        for s_ in stores:
+            ed |= deps(s_.value, set())
+        # names defined from the key inside the guarded block are covered as well
+        leaf = {n for n in ed if not any(v is not None and st in list(ast.walk(loop)) and k == "assign" for st, v, k in b.get(n, []))}
+        kleaf = {n for n in kd if not any(v is not None and st in list(ast.walk(loop)) and k == "assign" for st, v, k in b.get(n, []))}
+        # a leaf (loop target) is covered if the key uses it at all; finer: each *use* t[i] must be determined by the key — approximated by
+        # comparing the subscripted/base expressions: every `X[leaf]` in the value must also occur in the key
+        def uses(e, seen=()):
+            res = set()
+            for n in ast.walk(e):
+                if isinstance(n, ast.Subscript) and any(isinstance(y, ast.Name) and y.id in leaf | kleaf for y in ast.walk(n.slice)):
+                    res.add(A.text(n))
+                if isinstance(n, ast.Name) and isinstance(n.ctx, ast.Load) and n.id in variant and n.id not in seen:
+                    for st, v, k in b.get(n.id, []):
+                        if v is not None and st in list(ast.walk(loop)) and k == "assign":
+                            res |= uses(v, seen + (n.id,))
+            return res
+        ku = uses(K)
+        eu = set()
+        for s_ in stores:
+            eu |= uses(s_.value)
+        # names whose *value* is part of the key (the key itself, or a direct element of a tuple key): anything computed from them alone is
+        # determined by the key
+        Kx = K
+        if isinstance(Kx, ast.Name):
+            for st, v, k in b.get(Kx.id, []):
+                if v is not None and st in list(ast.walk(loop)) and k == "assign" and isinstance(v, ast.Tuple):
+                    Kx = v
+        determined = {Kx.id} if isinstance(Kx, ast.Name) else {e.id for e in getattr(Kx, "elts", []) if isinstance(e, ast.Name)}
+        if isinstance(K, ast.Name):
+            determined.add(K.id)
+        comp_local = {n.id for s_ in stores for g in ast.walk(s_.value) if isinstance(g, ast.comprehension) for n in ast.walk(g.target) if isinstance(n, ast.Name)}
+
+        def covered(u_text):
+            try:
+                e = ast.parse(u_text, mode="eval").body
+            except SyntaxError:
+                return False
+            vs = {n.id for n in ast.walk(e) if isinstance(n, ast.Name) and n.id in variant}
+            return vs <= (determined | comp_local)
+        missing = sorted(u for u in eu - ku if not covered(u))
+        # the grouping idiom `if k not in d: d[k] = [x] else: d[k].append(x)` is an accumulator, not a memo
+        if x.orelse and any(isinstance(c_, ast.Call) and isinstance(c_.func, ast.Attribute) and A.text(c_.func.value) == f"{M}[{A.text(K)}]" for o_ in x.orelse for c_ in ast.walk(o_)):
+            continue
+        if not eu and leaf - kleaf:
+            missing = sorted(leaf - kleaf)
+        out.append((x, A.text(K), missing, sorted(eu) or sorted(leaf)))
+    return out
+
+
+def run_U3(chk, prefixes, rule="U3"):
+    prog = chk.prog
+    chk.rule(rule, "a local memo keyed inside a loop covers every loop-variant input of the value it stores", floor=0)
+    # the rule has (almost) no instance on the pinned tree: a built-in positive example must be reported on every run
+    fx = ast.parse(_U3_FIXTURE).body[0]
+    got = _memo_findings(fx)
+    if not (len(got) == 1 and got[0][2] == ["t[i]", "t[j]"]):
+        raise AnalysisError(f"{rule}: self-test of the memo-key detector failed: {got}")
+    n = 0
+    for f in prog.all_funcs():
+        if not f.module.name.startswith(tuple(prefixes)) or "torch" in f.module.name:
+            continue
+        for node, key, missing, total in _memo_findings(f.node):
+            n += 1
+            chk.verdict(rule, (f, node), f"{f.short}: memo key `{key}`", False if missing else True,
+                        f"{f.short}(): the value memoised under `{key}` also depends on {missing}, which the key does not determine: two iterations that "
+                        f"agree on the key but differ there receive each other's value (stale local cache)")
+    chk.extra["local_memos"] = n
